@@ -154,7 +154,8 @@ class Executor:
                 raise Unsupported(f"truthiness of {k}")
             h = self.spec.globals.get("__truthy__", {})
             if v.cls in h:
-                return h[v.cls](st, v)
+                f = h[v.cls]
+                return f(self, st, v) if getattr(f, "wants_ex", False) else f(st, v)
             return z3.simplify(v.z != 0)
         if isinstance(v, (VGlobal, VOpaque)):
             raise Unsupported(f"truthiness of {v}")
